@@ -528,6 +528,9 @@ def corpus_calls(tier, seed, rnd, n=None, repeat=False):
             c["ns"] = "numpy"
             if c["dtype"] is None:
                 pass
+        if smp != "convert" and i % 3 == 1:
+            c["via"] = "aspire"          # through Aspire.sample_posterior(sampler=..., rng=...)
+            c["precond"] = "default" if c["precond"] != "none" else "none"
         specs.append(_mk(i, "calls_repeat" if repeat else "calls", {"cfg": c}))
     for sp in specs:
         sp["id"] = "c" + sp["id"]
@@ -617,6 +620,51 @@ def corpus_resume(tier, seed, rnd):
             specs.append(_mk(k, "resume", p))
             k += 1
     return specs
+
+
+def reload_route(verdict, tier, seed):
+    """C10 on what the library *records*: the final samples and every stored population of real runs,
+    written with the library's own save() and read back with load(), must still pair each row's
+    coordinates with its own log-densities (parameter names deliberately not in alphabetical order)."""
+    import h5py
+    import smcdrv
+    from aspire.history import SMCHistory
+    n = 0
+    names = {1: ["q"], 2: ["q", "alpha"], 3: ["q", "alpha", "m"], 4: ["t", "q", "alpha", "m"]}
+    for i in range(6 if tier == "quick" else 60):
+        dims = [3, 2, 3, 4, 1, 3][i % 6]
+        cfg = dict(N=8, dims=dims, width=[0.5, 1.0][i % 2], seed=seed * 11 + i, mcmc_steps=1, pnames=names[dims],
+                   ns=["numpy", "torch", "jax"][i % 3], dtype="float64", sampler="minipcn_smc",
+                   n_final=12 if i % 2 else None, precond=["none", "default"][i % 2])
+        r = smcdrv.run_smc(cfg)
+        scen = {"builder": "reload_route", "params": {"cfg": cfg}}
+        if r["status"] != "ok":
+            raise MachineryError(f"reload_route run failed: {r['status']} {r['exc']}")
+        wd = workdir("reload")
+        try:
+            path = str(wd / "r.h5")
+            res, hist = r["result"], r["sampler"].history
+            for flat in (False, True):
+                with h5py.File(path, "w") as f:
+                    res.save(f, path="final", flat=flat)
+                    hist.save(f, path="history")
+                with h5py.File(path, "r") as f:
+                    back = type(res).load(f, path="final")
+                    hback = SMCHistory.load(f, path="history")
+                sets = [("final samples", back)] + [(f"stored population {t}", q) for t, q in enumerate(hback.sample_history)]
+                for what, q in sets:
+                    n += 1
+                    if list(q.parameters) != list(names[dims]):
+                        verdict.violation(f"CachedCoherent|reloaded|parameters", f"{what} reloads with parameters {q.parameters} instead of {names[dims]}", scen)
+                        continue
+                    coh = smcdrv.coherent(smcdrv.popdict(q), r["prob"], r["flow"], 64)
+                    if not all(v is None or v for v in coh):
+                        verdict.violation(f"CachedCoherent|reloaded|{'flat' if flat else 'nested'}|{cfg['ns']}",
+                                          f"{what} read back from HDF5 ({'flat' if flat else 'nested'} layout, parameters {names[dims]}): "
+                                          f"stored [log-likelihood, log-prior, log-proposal] equal to the functions at the row's own coordinates: {coh}", scen)
+        finally:
+            cleanup(wd)
+    return {"reloaded_sets_checked": n}
 
 
 def corpus_resume_schedule(tier, seed, rnd):
@@ -1187,7 +1235,7 @@ CHECKS = {
     "C09": dict(corpus=lambda t, s, r: corpus_general(t, s, r, 150 if t == "quick" else 3000), e1=[],
                 extra=lambda v, t, s: __import__("e3_resample").replay(v, t, s)),
     "C10": dict(corpus=lambda t, s, r: corpus_general(t, s, r) + corpus_calls(t, s, r), e1=[e1_smcrun],
-                extra=lambda v, t, s: __import__("e3_initialdraw").replay(v, t, s, "C10")),
+                extra=lambda v, t, s: dict(__import__("e3_initialdraw").replay(v, t, s, "C10"), **reload_route(v, t, s))),
     "C11": dict(corpus=corpus_resume, e1=[e1_smcrun]),
     "C12": dict(corpus=lambda t, s, r: corpus_file(t, s, r) + [dict(x, id="r" + x["id"]) for x in corpus_resume(t, s, r)][: (150 if t == "quick" else 3000)],
                 e1=[e1_smcrun], extra=e3_blob),
